@@ -1202,3 +1202,68 @@ impl Family for F9 {
         Case { u, p, tag: "F9".into() }
     }
 }
+
+/// F8b: two root requirements (a, b) whose preferred candidates pull in transitive packages that
+/// constrain each other: a=2 requires q; b=2 requires x and c; every version of x and c independently
+/// does nothing or forbids one version of q. a=1 and b=1 are dependency-free fallbacks.
+pub struct F8b;
+
+impl Family for F8b {
+    fn name(&self) -> String {
+        "F8b transitive/transitive interference".into()
+    }
+    fn len(&self) -> u64 {
+        81 * 2 * 2
+    }
+    fn get(&self, mut idx: u64) -> Case {
+        let mut take = |n: u64| {
+            let r = idx % n;
+            idx /= n;
+            r
+        };
+        let opts: Vec<u64> = (0..4).map(|_| take(3)).collect();
+        let q_pref_low = take(2) == 1;
+        let x_pref_low = take(2) == 1;
+        let mut u = Universe::default();
+        let a = u.add_name("a");
+        let b = u.add_name("b");
+        let q = u.add_name("q");
+        let x = u.add_name("x");
+        let c = u.add_name("c");
+        let a1 = u.add_solv(a, 1);
+        let a2 = u.add_solv(a, 2);
+        let b1 = u.add_solv(b, 1);
+        let b2 = u.add_solv(b, 2);
+        let q1 = u.add_solv(q, 1);
+        let q2 = u.add_solv(q, 2);
+        let x1 = u.add_solv(x, 1);
+        let x2 = u.add_solv(x, 2);
+        let c1 = u.add_solv(c, 1);
+        let c2 = u.add_solv(c, 2);
+        if q_pref_low {
+            u.set_order(&[q1, q2]);
+        }
+        if x_pref_low {
+            u.set_order(&[x1, x2]);
+        }
+        let a_all = u.add_vset(a, &[a1, a2]);
+        let b_all = u.add_vset(b, &[b1, b2]);
+        let q_all = u.add_vset(q, &[q1, q2]);
+        let x_all = u.add_vset(x, &[x1, x2]);
+        let c_all = u.add_vset(c, &[c1, c2]);
+        let q_only1 = u.add_vset(q, &[q1]);
+        let q_only2 = u.add_vset(q, &[q2]);
+        u.solvs[a2 as usize].deps.push_req(Req::Single(q_all));
+        u.solvs[b2 as usize].deps.push_req(Req::Single(x_all));
+        u.solvs[b2 as usize].deps.push_req(Req::Single(c_all));
+        for (i, s) in [x1, x2, c1, c2].into_iter().enumerate() {
+            match opts[i] {
+                0 => {}
+                1 => u.solvs[s as usize].deps.push_con(q_only1), // forbids q=2
+                _ => u.solvs[s as usize].deps.push_con(q_only2), // forbids q=1
+            }
+        }
+        let p = Problem { reqs: vec![Req::Single(a_all), Req::Single(b_all)], cons: vec![], soft: vec![] };
+        Case { u, p, tag: "F8b".into() }
+    }
+}
